@@ -18,7 +18,8 @@
    Character classes, the hop-by-hop set, SERVER and the FileWrapper block size come from
    Gen/GenResponse.v, regenerated from the tree under test on every run.
 
-   Not modelled: socket errors while writing (C05 family), TLS (cfg.is_ssl = False), non-str /
+   Not modelled: file-like objects that have fileno() but no tell() (sendfile then starts at the descriptor's
+   offset), socket errors while writing (C05 family), TLS (cfg.is_ssl = False), non-str /
    non-bytes arguments (TypeError branches), the 100-continue line of wsgi.create, the error page
    written by Worker.handle_error (the model stops at "exception propagated"), is_already_handled. *)
 From Coq Require Import List NArith ZArith Bool.
@@ -255,7 +256,7 @@ Definition resp_write (rq : reqinfo) (date : str) (st : rstate) (arg : bytes) : 
 (* ---- file wrapper --------------------------------------------------------------------------------------------- *)
 Record filespec := {
   f_content : bytes;       (* content of the underlying file *)
-  f_offset : N;            (* position of the file object when it is handed to the server *)
+  f_offset : N;            (* position of the file object (filelike.tell()) when it is handed to the server *)
   f_blksize : N;           (* FileWrapper(filelike, blksize) *)
   f_has_fileno : bool      (* util.has_fileno(filelike) *)
 }.
@@ -288,9 +289,9 @@ Definition resp_sendfile (rq : reqinfo) (date : str) (sendfile_ok : bool) (st : 
   if negb sendfile_ok then (st, inl false)                                   (* cfg.is_ssl or not can_sendfile() *)
   else if negb (f_has_fileno f) then (st, inl false)
   else
-    let offset := Z.of_N (f_offset f) in
+    let offset := Z.of_N (f_offset f) in                                      (* respiter.filelike.tell() *)
     let filesize := Z.of_nat (length (f_content f)) in
-    let nbytes := match r_length st with None => (filesize - offset)%Z | Some len => len end in
+    let nbytes := match r_length st with None => (filesize - offset)%Z | Some len => (len - r_sent st)%Z end in
     match send_headers rq date st with
     | (st, Some e) => (st, inr e)
     | (st, None) =>
